@@ -1,5 +1,5 @@
 (* C08 - A token's CID is the content address of its canonical sealed bytes. *)
-Require Import Base Node Cbor CborProofs Stream StreamProofs.
+Require Import Base Node Cbor CborProofs Stream StreamProofs SealedBytes.
 Local Open Scope N_scope.
 
 (* buffered seal / unseal report cid_of(bytes) by definition (to_sealed, from_sealed in Stream.v);
@@ -29,3 +29,27 @@ Theorem C08_same_content_same_bytes : forall x y, canon x = x -> canon y = y -> 
   (encode x = encode y <-> x = y).
 Proof. exact encode_eq_iff. Qed.
 Print Assumptions C08_same_content_same_bytes.
+
+(* the acceptance condition of the sealed decoders (envelope.DecodeSealed = [sealed_decode_f]: decode, then
+   require the input to be the encoding of the result): an accepted byte string is the canonical encoding
+   of what it decodes to, what sealing produces is accepted, and two accepted byte strings that carry the
+   same content (up to the order of map entries) are the same byte string, hence have the same CID *)
+Theorem C08_accepted_bytes_are_the_encoding_of_their_content : forall f b n,
+  sealed_decode_f f b = Some n -> encode n = b.
+Proof. exact sealed_bytes_are_the_encoding. Qed.
+Print Assumptions C08_accepted_bytes_are_the_encoding_of_their_content.
+
+Theorem C08_sealed_output_is_accepted : forall x f, wf x -> keys_distinct x -> (depth x <= f)%nat ->
+  sealed_decode_f f (encode x) = Some (canon x).
+Proof. exact sealed_accepts_encoding. Qed.
+Print Assumptions C08_sealed_output_is_accepted.
+
+Theorem C08_same_content_same_accepted_bytes : forall f1 f2 b1 b2 n1 n2,
+  sealed_decode_f f1 b1 = Some n1 -> sealed_decode_f f2 b2 = Some n2 ->
+  keys_distinct n1 -> keys_distinct n2 -> canon n1 = canon n2 -> b1 = b2.
+Proof. exact sealed_unique. Qed.
+Print Assumptions C08_same_content_same_accepted_bytes.
+
+Theorem C08_encoding_ignores_map_entry_order : forall x, keys_distinct x -> encode (canon x) = encode x.
+Proof. exact encode_canon. Qed.
+Print Assumptions C08_encoding_ignores_map_entry_order.
